@@ -70,10 +70,16 @@ StartExpiry(ver, clean, req) ==
   ELSE IF req < 0 THEN 0 ELSE Min(req, cfg.sessexpiry)
 
 \* CONNECT written by the client on a fresh connection k
-Connect(k, cid, ver, clean, recvmax, expiry) ==
+\* lim = [maxpkt, aliasmax]: the client's Maximum Packet Size and Topic Alias Maximum (0 = not given)
+Connect(k, cid, ver, clean, recvmax, expiry, lim) ==
   /\ k \notin DOMAIN conn
   /\ conn' = Put(conn, k, [cid |-> cid, ver |-> ver, st |-> "connecting", clean |-> clean, recvmax |-> recvmax,
-                          expiry |-> StartExpiry(ver, clean, expiry), sawfresh |-> FALSE])
+                          expiry |-> StartExpiry(ver, clean, expiry), sawfresh |-> FALSE,
+                          maxpkt |-> lim.maxpkt, aliasmax |-> lim.aliasmax,
+                          open |-> 0,          \* inbound QoS>0 publications on k the broker has not finished (C13)
+                          aliasin |-> <<>>,    \* inbound alias bindings made on k
+                          dying |-> {},        \* reason codes of the DISCONNECT the broker owes before closing k
+                          disc |-> FALSE])     \* that DISCONNECT has been read
   /\ UNCHANGED <<cfg, subs, sess, owed, gowed, ctl, ret, unack, infl, last, ctr>>
 
 \* the state a session is reduced to when its connection goes away: QoS0 copies not yet read may or may
@@ -226,8 +232,11 @@ Matched(src, m) == NonSharedHits(src, m.lv, m.sys) # {} \/ Groups(m.lv) # {}
 
 \* the effect of a publication from publisher src (client id, or API): new obligations.
 \* (idx, session, key) identifies an obligation; idx is the publication index used by the order clause.
+\* C13: a copy larger than the Maximum Packet Size of the session's current connection is dropped whole
+Fits(c, m) == ~Online(c) \/ conn[sess[c].online].maxpkt = 0 \/ m.fsize <= conn[sess[c].online].maxpkt
+
 Publication(src, m) ==
-  LET cps  == {x \in Copies(src, m) : Keeps(x.c, x.qos)}
+  LET cps  == {x \in Copies(src, m) : Keeps(x.c, x.qos) /\ Fits(x.c, m)}
       idx  == ctr.pub + 1
       mk(x) == [key |-> x.key, tag |-> m.tag, topic |-> m.topic, src |-> src, idx |-> idx, qos |-> x.qos,
                 retains |-> x.retains, ids |-> x.ids, anyids |-> FALSE, opt |-> FALSE, carried |-> FALSE]
@@ -245,7 +254,18 @@ RetainUpdate(m) ==
   ELSE IF m.empty THEN ret' = [t \in DOMAIN ret \ {m.topic} |-> ret[t]]
   ELSE ret' = Put(ret, m.topic, [tag |-> m.tag, qos |-> m.qos, lv |-> m.lv, sys |-> m.sys])
 
-\* PUBLISH written by the client on k.  m = [topic, lv, sys, qos, retain, empty, tag, pid, dup]
+\* C13, inbound limits of a v5 connection: what makes the broker end the connection, with which reason codes
+AliasUsed(m) == m.alias # 0 \/ m.notopic
+Offences(k, m) ==
+  IF conn[k].ver # 5 THEN {}
+  ELSE (IF m.qos > 0 /\ conn[k].open >= cfg.srvrecvmax THEN {147} ELSE {})                       \* 0x93 Receive Maximum exceeded
+       \cup (IF m.size > cfg.srvmaxpkt THEN {149} ELSE {})                                      \* 0x95 Packet too large
+       \cup (IF AliasUsed(m) /\ (m.alias = 0 \/ m.alias > cfg.srvaliasmax) THEN {148} ELSE {})   \* 0x94 Topic Alias invalid
+       \cup (IF m.notopic /\ m.alias \notin DOMAIN conn[k].aliasin /\ m.alias # 0 /\ m.alias <= cfg.srvaliasmax
+              THEN {148, 130} ELSE {})                                                          \* unbound alias: 0x94 / 0x82
+
+\* PUBLISH written by the client on k.  m = [topic, lv, sys, qos, retain, empty, tag, pid, dup, alias, notopic, size, fsize]
+\* (topic = the topic the client means; with notopic the packet carries only the alias)
 \* QoS2: a packet id awaiting PUBREL is a retransmission - acknowledged, not forwarded again (C04).
 ClientPublish(k, m) ==
   LET c == conn[k].cid
@@ -253,13 +273,29 @@ ClientPublish(k, m) ==
       v5 == conn[k].ver = 5
       codes == IF ~v5 THEN {0} ELSE IF isdup THEN {0, 16} ELSE IF Matched(c, m) THEN {0} ELSE {0, 16}
       ack == IF m.qos = 1 THEN {[t |-> "puback", pid |-> m.pid, codes |-> codes]}
-             ELSE IF m.qos = 2 THEN {[t |-> "pubrec", pid |-> m.pid, codes |-> codes]} ELSE {} IN
-  /\ Up(k)
-  /\ IF isdup THEN UNCHANGED <<owed, gowed, ctr, ret>>
-     ELSE Publication(c, m) /\ RetainUpdate(m)
-  /\ unack' = IF m.qos = 2 THEN Put(unack, c, Unack(c) \cup {m.pid}) ELSE unack
-  /\ ctl' = Put(ctl, k, Ctl(k) \cup ack)
-  /\ UNCHANGED <<cfg, subs, conn, sess, infl, last>>
+             ELSE IF m.qos = 2 THEN {[t |-> "pubrec", pid |-> m.pid, codes |-> codes]} ELSE {}
+      off == Offences(k, m) IN
+  /\ Up(k) /\ conn[k].dying = {}
+  /\ IF off # {}
+       THEN \* the client overstepped a limit the CONNACK advertised: the broker owes a DISCONNECT with that reason
+            /\ conn' = [conn EXCEPT ![k].dying = off]
+            /\ UNCHANGED <<owed, gowed, ctr, ret, unack, ctl>>
+       ELSE /\ IF isdup THEN UNCHANGED <<owed, gowed, ctr, ret>>
+               ELSE Publication(c, m) /\ RetainUpdate(m)
+            /\ (m.notopic => conn[k].aliasin[m.alias] = m.topic)     \* scenario sanity: the script means the bound topic
+            /\ unack' = IF m.qos = 2 THEN Put(unack, c, Unack(c) \cup {m.pid}) ELSE unack
+            /\ ctl' = Put(ctl, k, Ctl(k) \cup ack)
+            /\ conn' = [conn EXCEPT ![k].open = IF v5 /\ m.qos > 0 THEN @ + 1 ELSE @,
+                                     ![k].aliasin = IF v5 /\ m.alias # 0 /\ ~m.notopic THEN Put(@, m.alias, m.topic) ELSE @]
+  /\ UNCHANGED <<cfg, subs, sess, infl, last>>
+
+\* DISCONNECT read from the broker on k: only when owed, with one of the demanded reason codes.  A client that
+\* stays within the advertised limits is never disconnected for them.
+SrvDisconnect(k, code) ==
+  /\ k \in DOMAIN conn
+  /\ code \in conn[k].dying
+  /\ conn' = [conn EXCEPT ![k].disc = TRUE]
+  /\ UNCHANGED <<cfg, subs, sess, owed, gowed, ctl, ret, unack, infl, last, ctr>>
 
 \* Publisher().Publish(m): delivery only (no OnMsgArrived, no retained store)
 ApiPublish(m) ==
@@ -271,7 +307,10 @@ PubAckRecv(k, t, pid, code) ==
   /\ k \in DOMAIN conn
   /\ \E p \in Ctl(k) : /\ p.t = t /\ p.pid = pid /\ code \in p.codes
                        /\ ctl' = [ctl EXCEPT ![k] = @ \ {p}]
-  /\ UNCHANGED <<cfg, subs, conn, sess, owed, gowed, ret, unack, infl, last, ctr>>
+  \* the exchange is finished for the broker's Receive Maximum: PUBACK, PUBCOMP, or a failing PUBREC
+  /\ conn' = IF conn[k].ver = 5 /\ conn[k].open > 0 /\ (t = "puback" \/ t = "pubcomp" \/ (t = "pubrec" /\ code >= 128))
+               THEN [conn EXCEPT ![k].open = @ - 1] ELSE conn
+  /\ UNCHANGED <<cfg, subs, sess, owed, gowed, ret, unack, infl, last, ctr>>
 
 \* PUBREL written by the client: the broker owes a PUBCOMP; the id is free again
 ClientPubrel(k, pid) ==
@@ -314,6 +353,11 @@ FitsGroup(c, k, g, mb, p) ==
 \* something this session is known to hold unacknowledged has not been retransmitted
 SeqOK(c, k, p) == /\ (p.dup => ~conn[k].sawfresh)
                   /\ (~p.dup => Resend(c) = {})
+                  \* C13: never larger than the client's Maximum Packet Size; aliases within 1..Topic Alias Maximum
+                  \* (that an alias-only PUBLISH resolves to the real topic is the topic equality of FitsOwed: the
+                  \* driver resolves aliases with the bindings it received on this connection)
+                  /\ (conn[k].maxpkt = 0 \/ p.size <= conn[k].maxpkt)
+                  /\ (p.alias = 0 \/ (p.alias >= 1 /\ p.alias <= conn[k].aliasmax))
 
 Explained(k, p) ==
   LET c == conn[k].cid IN
@@ -412,6 +456,8 @@ QuietOK ==
   /\ \A c \in DOMAIN sess : (Online(c) /\ ~Blocked(c)) => Resend(c) = {}   \* everything unacknowledged was retransmitted
   /\ \A g \in gowed : GroupParked(g) \/ \E mb \in g.members : Blocked(mb.c)
   /\ \A k \in DOMAIN conn : conn[k].st = "up" => Ctl(k) = {}
+  \* a client that overstepped an advertised limit has been disconnected with the reason code
+  /\ \A k \in DOMAIN conn : conn[k].dying # {} => (conn[k].st = "down" /\ conn[k].disc)
 
 Quiet == QuietOK /\ UNCHANGED bvars
 
